@@ -515,6 +515,17 @@ class Order:
                 local_defs = {d.name: d for d in ast.walk(self.fi.node) if isinstance(d, ast.FunctionDef) and d is not self.fi.node} if getattr(self, "fi", None) is not None else {}
                 called = {n.func.id for x in h.body for n in ast.walk(x) if isinstance(n, ast.Call) and isinstance(n.func, ast.Name)}
                 removes = any(nm in local_defs and self._removes(local_defs[nm].body) for nm in called)
+                if not removes:
+                    # ... or through a helper of another module of the package that is handed this circuit (`_impl.drop_instance(self, ...)`)
+                    for x in h.body:
+                        for n in ast.walk(x):
+                            if isinstance(n, ast.Call) and any(isinstance(a, ast.Name) and a.id == "self" for a in n.args):
+                                callee = self.repo.func_of_callee(FILE, n.func)
+                                if callee is not None and callee.cls is None:
+                                    params = [a.arg for a in callee.node.args.posonlyargs + callee.node.args.args]
+                                    idx = next(i for i, a in enumerate(n.args) if isinstance(a, ast.Name) and a.id == "self")
+                                    if idx < len(params) and self._removes(callee.node.body, recv=params[idx]):
+                                        removes = True
             reraises = bool(h.body) and isinstance(h.body[-1], ast.Raise) and h.body[-1].exc is None
             if removes and reraises:
                 return True
@@ -561,10 +572,10 @@ class Order:
         return False
 
     @staticmethod
-    def _removes(body):
+    def _removes(body, recv="self"):
         # `self.graph.remove_node(s_from)(...)`, the same through a local alias of the graph (`graph = self.graph`), `self.remove(...)`
-        return any(isinstance(n, ast.Call) and isinstance(n.func, ast.Attribute) and ((n.func.attr in ("remove_node", "remove_nodes_from") and (dotted(n.func.value) == "self.graph" or isinstance(n.func.value, ast.Name)))
-                                                                                  or (dotted(n.func.value) == "self" and n.func.attr == "remove"))
+        return any(isinstance(n, ast.Call) and isinstance(n.func, ast.Attribute) and ((n.func.attr in ("remove_node", "remove_nodes_from") and (dotted(n.func.value) == f"{recv}.graph" or isinstance(n.func.value, ast.Name)))
+                                                                                  or (dotted(n.func.value) == recv and n.func.attr == "remove"))
                    for x in body for n in ast.walk(x))
 
     def is_rollback_stack(self, st):
@@ -594,6 +605,11 @@ class Order:
             return self.is_unread_manager(expr.body) or self.is_unread_manager(expr.orelse)  # `with nullcontext() if existed else <manager>:`
         if not (isinstance(expr, ast.Call) and isinstance(expr.func, (ast.Attribute, ast.Name))):
             return False
+        imported = self.repo.imported_names(FILE)
+        if isinstance(expr.func, ast.Attribute) and isinstance(expr.func.value, ast.Name) and imported.get(expr.func.value.id, ("",))[0] == "module":
+            return True  # `with _impl.undo_on(...)`: a manager defined in another module of the package, not read by this shape rule
+        if isinstance(expr.func, ast.Name) and imported.get(expr.func.id, ("",))[0] == "name":
+            return True  # `from ._impl import undo_on`
         if isinstance(expr.func, ast.Attribute) and dotted(expr.func.value) not in ("self", "Circuit"):
             return False
         name = expr.func.attr if isinstance(expr.func, ast.Attribute) else expr.func.id
